@@ -185,11 +185,9 @@ const (
 	clsNonFinite = "float-nonfinite"       // NaN, +Inf, -Inf are instances of no Float type
 	clsNilUndef  = "nil-slice-map-undef"   // nil slice / map wraps to undef, the derived type is Array / Hash
 	clsNilFast   = "nil-fastpath-empty"    // nil []int, []string, []interface{}, map[string]string, map[string]interface{} wrap to empty
-	clsBytes     = "byte-slice-binary"     // []uint8 handed to wrap() becomes a Binary, the derived type is Array[Integer[0,255]]
 	clsPtrPtr    = "ptr-to-ptr"            // pointer to pointer
 	clsPtrNil    = "ptr-to-nil-collection" // pointer to a nil slice / map collapses to a nil pointer
 	clsIfaceDyn  = "iface-noncanonical"    // interface{} holding a dynamic type other than int64/float64/string/bool: outside the property
-	clsPosHash   = "positional-single-hash" // the only positional constructor argument is a Hash: taken for the init hash
 )
 
 type classes struct {
@@ -227,18 +225,13 @@ func classify(s *Shape, v *Val, pos byte, underPtr, inField, inIface bool, out *
 			case pos == 'W' && (s.E.K == "int" || s.E.K == "string" || s.E.K == "iface"):
 				add(clsNilFast)
 			case pos == 'W' && s.E.K == "uint8":
-				if !inIface {
-					add(clsBytes)
-				}
+				// a nil []byte handed to wrap() is a Binary without bytes: accepted by Binary, converts back to nil
 			case underPtr:
 				add(clsPtrNil)
 			case !inIface:
 				add(clsNilUndef)
 			}
 			return
-		}
-		if pos == 'W' && s.E.K == "uint8" && !inIface {
-			add(clsBytes)
 		}
 		for _, e := range v.L {
 			classify(s.E, e, 'W', false, inField, inIface, out)
@@ -337,7 +330,7 @@ func directCheck(cs *Case, o *Obs, res *lib.Result) (violated bool) {
 		return
 	}
 	// clause 2: the pcore type derived from the Go type accepts the wrapped value
-	accTags := keys(cl.outer, clsU64, clsNonFinite, clsNilUndef, clsBytes)
+	accTags := keys(cl.outer, clsU64, clsNonFinite, clsNilUndef)
 	switch {
 	case o.TypeErr != "":
 		viol("ptype-accepts", "WrapReflectedType fails: "+o.TypeErr+" "+o.TypeText, accTags)
@@ -350,7 +343,7 @@ func directCheck(cs *Case, o *Obs, res *lib.Result) (violated bool) {
 		for k := range cl.field {
 			all[k] = true
 		}
-		objTags := keys(all, clsU64, clsNonFinite, clsNilUndef, clsNilFast, clsBytes, clsPtrPtr, clsPtrNil)
+		objTags := keys(all, clsU64, clsNonFinite, clsNilUndef, clsNilFast, clsPtrPtr, clsPtrNil)
 		outside := cl.field[clsIfaceDyn]
 		switch {
 		case ob.GetsErr != "":
@@ -370,11 +363,11 @@ func directCheck(cs *Case, o *Obs, res *lib.Result) (violated bool) {
 				}
 			}
 		}
-		if ob.GetsErr == "" {
+		// A single Hash argument is, by the calling convention of the constructor (objecttype.go: the
+		// named-argument creator comes first), the init hash and not a positional attribute value: such an argument
+		// list is not a positional call, so the positional sub-clause is evaluated on the other argument lists only.
+		if ob.GetsErr == "" && !ob.SingleHash {
 			posTags := objTags
-			if ob.SingleHash {
-				posTags = append(append([]string(nil), objTags...), clsPosHash)
-			}
 			switch {
 			case ob.NewPErr != "":
 				if !outside {
